@@ -36,13 +36,12 @@ ASSUMPTIONS = [
     'compile-time / fixed / bounded shape kinds of the same routines are in the C09/C11 kind matrix, not here (dynamic shapes only)',
 ]
 PARTIAL = [
-    'matmul_elem_eq_sum covers view::matmul for operand ranks >= 2 only: with a 1-d operand the unchanged view throws / is undefined (known finding matmul.v1-1d-operand, matmul_v1_1d_counterexample); matmulv2_eq_def covers all ranks >= 1',
-    'refusals: matmul_isSome_iff / dot_isSome_iff only; for view::matmulv2, inner, vecdot, tensordot the unchanged code accepts operands NumPy refuses (contracted extent 1 against n: known findings matmulv2.contraction-extent-broadcast, C16.contraction-extent-broadcast; matmulv2_contraction_counterexample, contraction_extent_counterexample), so no isSome-iff theorem holds for them before the repair',
+    'tensordot_isSome_iff assumes valid explicit axis lists (in range, no repeats, equal counts): view::tensordot still unwraps normalize_axis unchecked and does not look for repeated axes (invalid explicit axes are outside the quantifier of C16; C15 lists no class for them)',
     'trace_eq_def covers every offset with a non-empty diagonal (-extent(axis1) < offset < extent(axis2), repaired index::diagonal); empty diagonals (sum over a zero-length axis = 0 since fix commit 10b33c2) are compared with NumPy only here; the Lean statement for every offset is trace_eq_sum_diag_any_offset of C08',
 ]
 MANIFEST = dict(
-    text='Proof: 22 Lean theorems over a symbolic term-list model (for every destination index the ordered list of (lhs index, rhs index) products a routine sums): index::shape_matmul = NumPy rule on all pairs (isSome iff accepted); view::matmul (ranks >= 2) and view::matmulv2 (all ranks >= 1, batch broadcasting, 1-d promotion) sum exactly a[..,i,k]*b[..,k,j], k in order; dot, inner, outer, vecdot, tensordot (integer and explicit axes, negative spellings), kron (incl. the closed form of kron_dst_transpose for all ranks), trace (offsets of either sign, non-empty diagonal) equal their NumPy definitions for every rank/extent; view::matmul and view::dot answer Nothing exactly on the operand pairs NumPy refuses (matmul_isSome_iff, dot_isSome_iff). Tied to the C++ on every run by a differential run of all eight routines (element access and eval) + pipeline shape helpers against the model and against NumPy.',
-    note='Lean kernel + propext/Classical.choice/Quot.sound; hand-written model (view combinators reshape/tile/transpose/broadcast-multiply/sum mirrored from the headers), fidelity rests on the correspondence run; broadcast_to index map taken in per-axis form (C06); dynamic-shape arrays only (static/bounded kinds in C09/C11); 3 genuine defects remain known findings (view::matmul with a 1-d operand; view::matmulv2 and inner / vecdot / tensordot broadcast a contracted axis of extent 1 where NumPy raises — repairs proposed in fixes/C16-matmul-1d-operand.diff, fixes/C15-contraction-extent.diff); trace over an empty diagonal is repaired in /repo (fix 10b33c2); the negative-offset defect of index::diagonal is repaired in /repo and modelled as repaired.',
+    text='Proof: 28 Lean theorems over a symbolic term-list model (for every destination index the ordered list of (lhs index, rhs index) products a routine sums): index::shape_matmul = NumPy rule on all pairs (isSome iff accepted); view::matmul and view::matmulv2 (both for all ranks >= 1, batch broadcasting, 1-d promotion on either side) sum exactly a[..,i,k]*b[..,k,j], k in order; dot, inner, outer, vecdot, tensordot (integer and explicit axes, negative spellings), kron (incl. the closed form of kron_dst_transpose for all ranks), trace (offsets of either sign, non-empty diagonal) equal their NumPy definitions for every rank/extent; every contracting routine (view::matmul, view::matmulv2, dot, inner, vecdot, tensordot with integer and with valid explicit axes) answers Nothing exactly on the operand pairs NumPy refuses (X_isSome_iff). Tied to the C++ on every run by a differential run of all eight routines (element access and eval) + pipeline shape helpers against the model and against NumPy.',
+    note='Lean kernel + propext/Classical.choice/Quot.sound; hand-written model (view combinators reshape/tile/transpose/broadcast-multiply/sum mirrored from the headers), fidelity rests on the correspondence run; broadcast_to index map taken in per-axis form (C06); dynamic-shape arrays only (static/bounded kinds in C09/C11); the 1-d operand defect of view::matmul is repaired in /repo (fix C16-matmul-1d-operand) and modelled as repaired (matmul_v1_1d_regression); view::matmul is also run over fixed-dim operand kinds (tuple slice lists); view::matmulv2 / inner / vecdot / tensordot no longer broadcast a contracted axis of extent 1 (fix C15-contraction-extent, modelled as pipeline + check: matmulV2C, innerC, vecdotC, tensordotIntC, tensordotAxesC; regression instances matmulv2_contraction_regression, contraction_extent_regression); no known finding is open; trace over an empty diagonal is repaired in /repo (fix 10b33c2); the negative-offset defect of index::diagonal is repaired in /repo and modelled as repaired.',
     technique='Lean 4 proofs over symbolic term lists (which (lhs index, rhs index) pairs are summed, in order) for every rank/extent + differential correspondence against the real views (element access and eval) + NumPy oracle')
 
 
@@ -92,13 +91,6 @@ def _shape(s):
     return [] if s == '[]' else [int(x) for x in s.split(',')]
 
 
-def matmul_v1_1d_operand(c):
-    if not c.req.startswith('matmul '):
-        return False
-    a = _args(c)
-    return a.get('impl') == 'v1' and (len(_shape(a['a'])) == 1 or len(_shape(a['b'])) == 1)
-
-
 def trace_empty_diagonal(c):
     if not c.req.startswith('trace '):
         return False
@@ -109,70 +101,7 @@ def trace_empty_diagonal(c):
     return min(n1 + min(o, 0), n2 - max(o, 0)) <= 0
 
 
-def _contracted_pairs(c):
-    """for a request of matmul v2 / inner / vecdot / tensordot: (list of (lhs extent, rhs extent) of the paired axes,
-    lhs shape with those axes set to the partner's extent where it is 1, same for rhs, the NumPy call) or None"""
-    op = c.req.split(' ')[0]
-    a = _args(c)
-    if op not in ('matmul', 'inner', 'vecdot', 'tensordot'):
-        return None
-    sa, sb = _shape(a['a']), _shape(a['b'])
-    if not sa or not sb:
-        return None
-    if op == 'matmul':
-        la, ra = [len(sa) - 1], [0 if len(sb) == 1 else len(sb) - 2]
-        f = np.matmul
-    elif op in ('inner', 'vecdot'):
-        la, ra = [len(sa) - 1], [len(sb) - 1]
-        f = np.inner if op == 'inner' else np.vecdot
-    elif 'axes' in a:
-        n = int(a['axes'])
-        if n > len(sa) or n > len(sb):
-            return None
-        la, ra = list(range(len(sa) - n, len(sa))), list(range(n))
-        f = lambda x, y: np.tensordot(x, y, n)
-    else:
-        la, ra = [int(x) for x in a['la'].split(',')], [int(x) for x in a['ra'].split(',')]
-        if len(la) != len(ra) or any(not -len(sa) <= x < len(sa) for x in la) or any(not -len(sb) <= y < len(sb) for y in ra):
-            return None
-        la, ra = [x % len(sa) for x in la], [y % len(sb) for y in ra]
-        f = lambda x, y: np.tensordot(x, y, (la, ra))
-    sa2, sb2 = list(sa), list(sb)
-    for x, y in zip(la, ra):
-        if sa[x] == 1:
-            sa2[x] = sb[y]
-        elif sb[y] == 1:
-            sb2[y] = sa[x]
-    return [(sa[x], sb[y]) for x, y in zip(la, ra)], sa2, sb2, f
-
-
-def _contraction_extent_broadcast(c):
-    """NumPy refuses the operands only because a contracted axis of extent 1 meets a partner of another extent: with the
-    1 replaced by the partner's extent (what broadcasting the contracted axis amounts to) NumPy accepts"""
-    t = _contracted_pairs(c)
-    if t is None:
-        return False
-    pairs, sa2, sb2, f = t
-    a = _args(c)
-    sa, sb = _shape(a['a']), _shape(a['b'])
-    if all(x == y for x, y in pairs) or any(x != y and x != 1 and y != 1 for x, y in pairs):
-        return False
-    z = lambda s: np.zeros(s, dtype=np.int8)
-    return np_try(lambda: f(z(sa), z(sb))) is None and np_try(lambda: f(z(sa2), z(sb2))) is not None
-
-
-def matmulv2_contraction_extent_broadcast(c):
-    return c.req.startswith('matmul ') and _args(c).get('impl') == 'v2' and _contraction_extent_broadcast(c)
-
-
-def contraction_extent_broadcast(c):
-    return c.req.split(' ')[0] in ('inner', 'vecdot', 'tensordot') and _contraction_extent_broadcast(c)
-
-
 KNOWN_PREDICATES = {
-    'matmul_v1_1d_operand': matmul_v1_1d_operand,
-    'matmulv2_contraction_extent_broadcast': matmulv2_contraction_extent_broadcast,
-    'contraction_extent_broadcast': contraction_extent_broadcast,
     'trace_empty_diagonal': trace_empty_diagonal,
 }
 
@@ -241,9 +170,8 @@ def _gen(tier, rng):
         if len(ba) != len(bb) or any(x != y for x, y in zip(ba, bb)):
             tags.append('batch-broadcast')
         nt = a[-1] > 1
-        one_d = len(a) == 1 or len(b) == 1
-        # view::matmul has no working 1-d promotion: off the theorem domain there (model mirrors the failing access)
-        yield Case('matmul impl=v1 a=%s b=%s data=%s' % (fmt(a), fmt(b), m), 'h_c16_mm', oracle=orc, dom=not one_d, nontrivial=nt, tags=tags + ['v1'])
+        # 1-d promotion of view::matmul: repaired (fix C16-matmul-1d-operand), inside the domain of matmul_elem_eq_sum
+        yield Case('matmul impl=v1 a=%s b=%s data=%s' % (fmt(a), fmt(b), m), 'h_c16_mm', oracle=orc, nontrivial=nt, tags=tags + ['v1'])
         yield Case('matmul impl=v2 a=%s b=%s data=%s' % (fmt(a), fmt(b), m), 'h_c16_mm', oracle=orc, nontrivial=nt, tags=tags + ['v2'])
     for a, b in stride_pick(pairs, 400 if quick else 2000):
         yield Case('matmul_helpers a=%s b=%s' % (fmt(a), fmt(b)), 'h_c16_mm', nontrivial=False, tags=['helpers'])
@@ -280,26 +208,25 @@ def _gen(tier, rng):
         yield Case('inner_helpers a=%s b=%s' % (fmt(a), fmt(b)), 'h_c16_dot', nontrivial=False, tags=['helpers'])
         yield Case('kron_helpers a=%s b=%s' % (fmt(a), fmt(b)), 'h_c16_td', nontrivial=False, tags=['helpers'])
 
-    # ---- operand pairs NumPy REFUSES (mismatching contracted extents, batch / leading axes that do not broadcast): every
-    #      routine must answer Nothing (the property: the shape NumPy produces — here none).  view::matmul: matmul_isSome_iff,
-    #      view::dot: dot_isSome_iff (theorem domain); matmulv2 / inner / vecdot / tensordot broadcast a contracted axis of
-    #      extent 1 (known findings matmulv2.contraction-extent-broadcast, C16.contraction-extent-broadcast = C15's class):
-    #      there the model mirrors the code and NumPy judges
+    # ---- operand pairs NumPy REFUSES (mismatching contracted extents — also 1 against n —, batch / leading axes that do not
+    #      broadcast, tensordot(n) with n beyond a rank): every routine must answer Nothing (the property: the shape NumPy
+    #      produces — here none).  Theorem domain: matmul_isSome_iff, matmulv2_isSome_iff, dot_isSome_iff, inner_isSome_iff,
+    #      vecdot_isSome_iff, tensordot_int_isSome_iff, tensordot_isSome_iff (views repaired by fixes/C15-contraction-extent.diff)
     def refused(fn):
         return [(a, b) for a, b in pairs if np_try(lambda: fn(np.zeros(a, dtype=np.int8), np.zeros(b, dtype=np.int8))) is None]
     nref = 260 if quick else 2500
     for a, b in stride_pick(refused(np.matmul), nref):
         for impl in ('v1', 'v2'):
-            yield Case('matmul impl=%s a=%s b=%s data=lin' % (impl, fmt(a), fmt(b)), 'h_c16_mm', oracle='nothing', dom=(impl == 'v1'),
+            yield Case('matmul impl=%s a=%s b=%s data=lin' % (impl, fmt(a), fmt(b)), 'h_c16_mm', oracle='nothing',
                        nontrivial=False, tags=['matmul', impl, 'refused-by-numpy'])
     for op, fn, h in (('dot', np.dot, 'h_c16_dot'), ('inner', np.inner, 'h_c16_dot'), ('vecdot', np.vecdot, 'h_c16_dot')):
         for a, b in stride_pick(refused(fn), nref):
-            yield Case('%s a=%s b=%s data=lin' % (op, fmt(a), fmt(b)), h, oracle='nothing', dom=(op == 'dot'), nontrivial=False,
+            yield Case('%s a=%s b=%s data=lin' % (op, fmt(a), fmt(b)), h, oracle='nothing', nontrivial=False,
                        tags=[op, 'refused-by-numpy'])
     rtd = []
     for a, b in pairs:
-        for n in range(1, min(len(a), len(b)) + 1):
-            if a[len(a) - n:] != b[:n]:
+        for n in range(1, max(len(a), len(b)) + 2):
+            if n > min(len(a), len(b)) or a[len(a) - n:] != b[:n]:
                 rtd.append(('tensordot a=%s b=%s axes=%d data=lin' % (fmt(a), fmt(b), n), 'int-axes'))
         if len(a) <= 3 and len(b) <= 3:
             for n in range(1, min(len(a), len(b)) + 1):
@@ -309,7 +236,7 @@ def _gen(tier, rng):
                             rtd.append(('tensordot a=%s b=%s la=%s ra=%s data=lin' % (fmt(a), fmt(b), fmt(la), fmt(ra)), 'explicit-axes'))
     for kind in ('int-axes', 'explicit-axes'):
         for req, k in stride_pick([t for t in rtd if t[1] == kind], nref):
-            yield Case(req, 'h_c16_td', oracle='nothing', dom=False, nontrivial=False, tags=['tensordot', k, 'refused-by-numpy'])
+            yield Case(req, 'h_c16_td', oracle='nothing', nontrivial=False, tags=['tensordot', k, 'refused-by-numpy'])
 
     # ---- tensordot ----
     td = []
@@ -390,7 +317,7 @@ def _gen(tier, rng):
     yield from random_cases(rng, 60 if quick else 600, cap if quick else 4000)
 
 
-MATMUL_KIND_1D = False      # fixed-dim 1-d operands instantiate only on a tree with fix C16-matmul-1d-operand
+MATMUL_KIND_1D = True       # fixed-dim 1-d operands (fix C16-matmul-1d-operand); 1-d x 1-d with BOTH dims fixed is a number, not a view: left out
 
 
 def matmul_kinds(mm, keep, mode):
@@ -399,7 +326,10 @@ def matmul_kinds(mm, keep, mode):
         sel = [(a, b) for a, b in ok if not (len(a) == 1 and len(b) == 1 and lk == 'fd' and rk == 'fd')]
         if not MATMUL_KIND_1D:
             sel = [(a, b) for a, b in sel if len(a) >= 2 and len(b) >= 2]
-        for a, b in stride_pick(sel, keep):
+        # every pair with a 1-d operand (the promotion branches), a fixed-stride sample of the others
+        one_d = [(a, b) for a, b in sel if len(a) == 1 or len(b) == 1]
+        rest = [(a, b) for a, b in sel if len(a) >= 2 and len(b) >= 2]
+        for a, b in stride_pick(one_d, 2 * keep) + stride_pick(rest, keep):
             m = mode()
             orc = show(np.matmul(mk(a, m, 0), mk(b, m, 1)))
             tags = ['matmul', 'kinds', 'lhs=' + lk, 'rhs=' + rk, 'rank=%d,%d' % (len(a), len(b))]
@@ -441,8 +371,7 @@ def random_cases(rng, n, cap):
             b = bb + [K, rng.randint(1, 7)]
         r = np_try(lambda: np.matmul(mk(a, m, 0), mk(b, m, 1)))
         if ok(r):
-            one_d = len(a) == 1 or len(b) == 1
-            yield Case('matmul impl=v1 a=%s b=%s data=%s' % (fmt(a), fmt(b), m), 'h_c16_mm', oracle=show(r), dom=not one_d, tags=['matmul', 'v1', 'random'])
+            yield Case('matmul impl=v1 a=%s b=%s data=%s' % (fmt(a), fmt(b), m), 'h_c16_mm', oracle=show(r), tags=['matmul', 'v1', 'random'])
             yield Case('matmul impl=v2 a=%s b=%s data=%s' % (fmt(a), fmt(b), m), 'h_c16_mm', oracle=show(r), tags=['matmul', 'v2', 'random'])
         # dot / inner / vecdot
         a = rshape(1, 3)
